@@ -26,14 +26,18 @@ EXTENDS HeaderImpl
 CONSTANTS Tags, MaxDepth,        \* build expressions: ExprsUpTo(Tags, MaxDepth), and "not set"
           Shapes,                \* boilerplate shapes (see BoilerLines), "none" = boilerplate-file not set
           Formatters,
-          Templates, Placements, PathKinds, Spellings   \* observation / spelling dimensions (no influence on the expectation)
+          Templates, Placements, PathKinds, Spellings,  \* observation / spelling dimensions (no influence on the expectation)
+          TdLevels,              \* where the two template-data keys are written: package level, package level over a DIFFERENT
+                                 \* top-level default (the header reads the package-effective value: most specific wins), top level only
+          FsStates               \* directory entries next to the config file named like bare tags / templates / the boilerplate file
 
 VARIABLES expr, shape, nl, fmt,  \* the case
           pc, lines              \* template execution
 
 vars == <<expr, shape, nl, fmt, pc, lines>>
 
-ASSUME PrintT(<<"OBSDIMS", ToJson([templ |-> Templates, place |-> Placements, pathkind |-> PathKinds, spelling |-> Spellings])>>)
+ASSUME PrintT(<<"OBSDIMS", ToJson([templ |-> Templates, place |-> Placements, pathkind |-> PathKinds, spelling |-> Spellings,
+                                   tdlevel |-> TdLevels, fs |-> FsStates])>>)
 
 AllExprs == ExprsUpTo(Tags, MaxDepth)
 
